@@ -15,12 +15,17 @@ open Lean Gen
 def valOf (j : Json) : Except String Val :=
   if j.isNull then pure none else (some <$> j.getNat?)
 
+/-- exception ids of the harness: 0-3 application exceptions, 4-5 GeneratorExit (instance / class),
+6.. BaseException-only objects -/
+def excOf (n : Nat) : Exc :=
+  if n < 4 then .user n else if n < 6 then .genExit else .base n
+
 def parseInp (j : Json) : Except String Inp := do
   let a ← j.getArr?
   let tag ← (a[0]?.getD Json.null).getStr?
   match tag with
   | "send" => Inp.send <$> valOf (a[1]?.getD Json.null)
-  | "throw" => (fun n => Inp.throw (.user n)) <$> (a[1]?.getD Json.null).getNat?
+  | "throw" => (fun n => Inp.throw (excOf n)) <$> (a[1]?.getD Json.null).getNat?
   | "close" => pure Inp.close
   | t => throw s!"bad inp {t}"
 
@@ -35,7 +40,7 @@ def parseInstr (j : Json) : Except String Instr := do
   | "yield" => Instr.yield <$> valOf x
   | "yieldLast" => pure .yieldLast
   | "ret" => Instr.ret <$> valOf x
-  | "raise" => Instr.raise <$> x.getNat?
+  | "raise" => (fun n => Instr.raise (excOf n)) <$> x.getNat?
   | "try" => pure .try_
   | "catch" => Instr.catch_ <$> x.getBool?
   | "endcatch" => pure .endcatch
@@ -70,6 +75,7 @@ def valJ : Val → Json
 
 def excJ : Exc → Json
   | .user n => toJson s!"user:{n}"
+  | .base n => toJson s!"base:{n}"
   | .genExit => "genExit"
   | .typeErr => "typeErr"
   | .ignoredExit => "ignoredExit"
